@@ -12,6 +12,7 @@ U == CASE UName = "t1small" -> L1s \cup Pairs(L1s)
        [] UName = "t1mid"   -> L1m \cup Pairs(L1m)
        [] UName = "t1full"  -> L1f \cup Pairs(L1f)
        [] UName = "t3small" -> L1s \cup KUnions(L1s, 3)
+       [] UName = "deep"    -> BigUnions(DeepPool, 2, 5)
        [] UName = "big"     -> BigUnions(ClassPool, 3, 8) \cup BigUnions(TuplePool, 3, 8) \cup BigUnions(SubclassPool, 3, 7)
                                \cup BigUnions(MixedPool, 3, 4) \cup KUnions(MixedPool, 6)
        [] UName = "wrap2"   -> Wrap(Pairs(L1s)) \cup Wrap(KUnions(MixedPool, 3)) \cup Wrap(BigUnions(TuplePool, 6, 6))
